@@ -87,6 +87,42 @@ theorem foldl_insertU_sorted : ∀ (xs acc : List String), acc.Pairwise (· < ·
 theorem getVariables_sorted (t : HTerm) : (getVariables t).Pairwise (· < ·) :=
   foldl_insertU_sorted _ [] List.Pairwise.nil
 
+/-- strictly increasing lists with the same members are equal -/
+theorem sorted_ext : ∀ (l m : List String), l.Pairwise (· < ·) → m.Pairwise (· < ·) → (∀ x, x ∈ l ↔ x ∈ m) → l = m
+  | [], [], _, _, _ => rfl
+  | [], b :: m, _, _, h => by have := (h b).mpr (by simp); simp at this
+  | a :: l, [], _, _, h => by have := (h a).mp (by simp); simp at this
+  | a :: l, b :: m, hl, hm, h => by
+    rw [List.pairwise_cons] at hl hm
+    have hab : a = b := by
+      have h1 : a = b ∨ a ∈ m := by simpa using (h a).mp (by simp)
+      have h2 : b = a ∨ b ∈ l := by simpa using (h b).mpr (by simp)
+      rcases h1 with h1 | h1
+      · exact h1
+      · rcases h2 with h2 | h2
+        · exact h2.symm
+        · exact absurd (hl.1 b h2) (String.lt_asymm (hm.1 a h1))
+    subst hab
+    congr 1
+    apply sorted_ext l m hl.2 hm.2
+    intro x
+    constructor
+    · intro hx
+      have : x = a ∨ x ∈ m := by simpa using (h x).mp (by simp [hx])
+      rcases this with rfl | hx'
+      · exact absurd (hl.1 x hx) (String.lt_irrefl x)
+      · exact hx'
+    · intro hx
+      have : x = a ∨ x ∈ l := by simpa using (h x).mpr (by simp [hx])
+      rcases this with rfl | hx'
+      · exact absurd (hm.1 x hx) (String.lt_irrefl x)
+      · exact hx'
+
+/-- the variable tuple depends on the *set* of variables only — not on where, how often or in which order they occur -/
+theorem getVariables_set (t t' : HTerm) (h : ∀ x, x ∈ t.varsOf ↔ x ∈ t'.varsOf) : getVariables t = getVariables t' :=
+  sorted_ext _ _ (getVariables_sorted t) (getVariables_sorted t')
+    (fun x => by rw [mem_getVariables, mem_getVariables]; exact h x)
+
 mutual
 theorem hsubst_congr (σ σ' : String → HTerm) : ∀ t : HTerm, (∀ x ∈ t.varsOf, σ x = σ' x) → t.subst σ = t.subst σ'
   | .num n, _ => rfl
